@@ -222,3 +222,18 @@ func sortedKeys(m map[string]int) []string {
 	sort.Strings(ks)
 	return ks
 }
+
+// replayCaseString reads the "case" field of a replay file.
+func replayCaseString(path string) (string, error) {
+	b, err := os.ReadFile(path)
+	if err != nil {
+		return "", err
+	}
+	var rp struct {
+		Case string `json:"case"`
+	}
+	if err := json.Unmarshal(b, &rp); err != nil {
+		return "", err
+	}
+	return rp.Case, nil
+}
